@@ -655,6 +655,12 @@ def run(ctx):
         if n < 1:
             raise AnchorMissing("expected a consume_bounded call over a generic inner decoder (DownlinkNotificationDecoder)")
 
+    with ctx.rule("C10.R13", "T3", "a decoder that takes its state out of `self` puts a state back before it asks for more input", floor=6) as r:
+        from rules.common import take_and_restore_rule
+        n = take_and_restore_rule(r, ctx.crate("swimos_agent_protocol"), ctx)
+        if n < 6:
+            raise AnchorMissing("take-and-restore decoders: expected at least 6 `Ok(None)` exits from non-initial states (CommandDecoder), found %d" % n)
+
 
 def _short(d):
     d = re.sub(r"\(.*?\)", "()", d)
